@@ -965,6 +965,16 @@ class NetworkGraph(AbstractBaseIR):
         # step 3: process multiple inputs to same variable
         if multiple_inputs:
 
+            # elements of a vectorized target variable that no edge projects to keep their declared default value,
+            # exactly as they do when the variable has a single input
+            if tsize > 1 and f'{tvar}_in0' in args and np.size(tval['value']) in (1, tsize):
+                default = np.broadcast_to(np.asarray(tval['value'], dtype=float).flatten(), (tsize,))
+                covered = set()
+                for tidx in target_indices:
+                    covered.update(int(j) for j in tidx) if tidx else covered.update(range(tsize))
+                for j in set(range(tsize)) - covered:
+                    args[f'{tvar}_in0']['value'][j] = default[j]
+
             # finalize edge equations
             eq = f"{tvar} = {'+'.join(in_vars)}"
             eqs.append(eq)
